@@ -19,7 +19,9 @@ def explore(ctx):
     ctx.rule = ('scaled w=2,4 (p_w = 13, 241 prime): inv on ALL representations with a mod p != 0 (a*inv(a)=1), div on all (x,a), exp on all (b,e) in [0,2^2w)^2 plus 190 large exponents; '
                 'native: inv/div on the alphabet plus continued-fraction-hard operands, exp on alphabet x 260 exponents; zero operands (0 and p) in a child process must not return; '
                 'every worker under a watchdog (termination). state = (op, operands); transition = one call; non-trivial = non-canonical operand')
-    ctx.bounds = {'scaled_widths': [2, 4], 'alphabet': 'A_t' if ctx.tier == 'thorough' else 'A_q'}
+    ctx.bounds = {'scaled_widths': [2, 4], 'alphabet': 'A_t' if ctx.tier == 'thorough' else 'A_q',
+                  'euclid quotient words': ('every word over {1..8, 2^10, 2^20, 2^31} up to length 5 (operand floor(p/[q1;..;qk]) and its neighbours), sparse words +-2^i+-2^j, 2^i+2^j+2^k'
+                                            if ctx.tier == 'thorough' else 'every word over {1,2,3,7,2^20} up to length 4 (operand floor(p/[q1;..;qk]) and its neighbours)')}
     ctx.assumptions = ['w=8 is not used: p_8 = 65281 = 97*673 is composite, inverses do not exist for all residues', 'oracle: own square-and-multiply and multiplication with __int128']
     for n in ('c10_native', 'c10_w2', 'c10_w4'):
         if n in ctx.bins:
